@@ -173,6 +173,17 @@ Fixpoint ins_sorted (x : N) (l : list N) : list N :=
   end.
 Definition sort_ids (l : list N) : list N := fold_right ins_sorted [] l.
 
+(* plain insertion sort (keeps duplicates) *)
+Fixpoint ins_plain (x : N) (l : list N) : list N :=
+  match l with
+  | [] => [x]
+  | y :: l' => if N.leb x y then x :: l else y :: ins_plain x l'
+  end.
+Definition isort (l : list N) : list N := fold_right ins_plain [] l.
+
+Fixpoint nodupb (l : list N) : bool :=
+  match l with [] => true | x :: l' => negb (existsb (N.eqb x) l') && nodupb l' end.
+
 Fixpoint list_eqb {A} (eqb : A -> A -> bool) (a b : list A) : bool :=
   match a, b with
   | [], [] => true
